@@ -1,5 +1,6 @@
 """Spec functions for the WebSocket properties, written from RFC 6455 (never from the code)."""
 import struct
+from specs.utf8 import from_table, to_table
 
 CLOSED, CONNECTING, CLOSING, OPEN, PROXY_CONNECTING = 0, 1, 2, 3, 4
 
@@ -42,3 +43,97 @@ def rfc_close_code_invalid(c):
 
 def rfc_close_code_valid(c):
     return (1000 <= c and c <= 1003) or (1007 <= c and c <= 1011) or (3000 <= c and c <= 4999)
+
+
+def utf8_complete(b):
+    """complete, well-formed UTF-8 (RFC 3629): the run from START over all of b ends in START"""
+    return utf8_run(0, b, len(b)) == 0
+
+
+def exists_code(payload):
+    """a close payload of >= 2 octets carries a status code that may legally appear on the wire"""
+    return wire_close_code_ok(payload[0] * 256 + payload[1])
+
+
+# ---------------------------------------------------------------- RFC 6455 5.2 frame header (first two octets)
+def h_fin(b0):
+    return b0 // 128
+
+
+def h_rsv(b0):
+    return (b0 // 16) % 8
+
+
+def h_op(b0):
+    return b0 % 16
+
+
+def h_masked(b1):
+    return b1 // 128
+
+
+def h_len7(b1):
+    return b1 % 128
+
+
+def rfc_header_ok(b0, b1, is_server, require_masked, accept_masked, pmce, inside_message):
+    """verdict on the first two header octets (RFC 6455 5.2, 5.4, 5.5; RFC 7692 6: RSV1 only on the first frame
+    of a data message and only with a negotiated compression extension)"""
+    fin = b0 // 128
+    rsv = (b0 // 16) % 8
+    op = b0 % 16
+    m = b1 // 128
+    l7 = b1 % 128
+    rsv_ok = rsv == 0 or (pmce and rsv == 4 and (op == 1 or op == 2) and not inside_message)
+    mask_ok = (not (is_server and require_masked) or m == 1) and (not ((not is_server) and (not accept_masked)) or m == 0)
+    if op > 7:
+        kind_ok = fin == 1 and l7 <= 125 and (op == 8 or op == 9 or op == 10) and not (op == 8 and l7 == 1)
+    else:
+        kind_ok = (op == 0 or op == 1 or op == 2) and ((op == 0) == inside_message)
+    return rsv_ok and mask_ok and kind_ok
+
+
+def header_len(b1):
+    """octets of the complete header: 2 + extended length (0/2/8) + masking key (0/4)"""
+    l7 = b1 % 128
+    ext = 0
+    if l7 == 126:
+        ext = 2
+    if l7 == 127:
+        ext = 8
+    if b1 // 128 == 1:
+        return 2 + ext + 4
+    return 2 + ext
+
+
+def be_value(data, lo, n):
+    """big-endian unsigned integer of data[lo:lo+n] (n = 2 or 8)"""
+    if n == 2:
+        return data[lo] * 256 + data[lo + 1]
+    return (((((((data[lo] * 256 + data[lo + 1]) * 256 + data[lo + 2]) * 256 + data[lo + 3]) * 256 + data[lo + 4]) * 256
+              + data[lo + 5]) * 256 + data[lo + 6]) * 256 + data[lo + 7])
+
+
+def payload_len(data):
+    """declared payload length of a complete header"""
+    l7 = data[1] % 128
+    if l7 == 126:
+        return be_value(data, 2, 2)
+    if l7 == 127:
+        return be_value(data, 2, 8)
+    return l7
+
+
+def rfc_extlen_ok(data):
+    """minimal length encoding (5.2) and the most significant bit of a 64-bit length MUST be 0"""
+    l7 = data[1] % 128
+    if l7 == 126:
+        return be_value(data, 2, 2) >= 126
+    if l7 == 127:
+        return 65536 <= be_value(data, 2, 8) and be_value(data, 2, 8) <= 0x7FFFFFFFFFFFFFFF
+    return True
+
+
+def size_bad(total, length, max_message, max_frame):
+    """C16: the declared length of this data frame pushes the message / frame over a configured limit"""
+    return (0 < max_message and max_message < total + length) or (0 < max_frame and max_frame < length)
